@@ -70,6 +70,9 @@ def _gen_filter(rng, modules, unknown_rate, allow_batch=True):
         form = rng.random()
         if rng.random() < unknown_rate:
             rx = ".*nosuchthing.*"
+        elif form < 0.15 and len(mods) > 2:
+            others = rng.sample([x for x in mods if x != m], min(len(mods) - 1, rng.randint(1, 2)))
+            rx = "^(" + "|".join(x.replace(".", "\\.") for x in sorted([m] + others)) + ")$"
         elif form < 0.35:
             rx = "^" + m.replace(".", "\\.") + "$"
         elif form < 0.6:
@@ -219,12 +222,16 @@ def gen_world(wseed):
     """World + evaluation pool, shared by the GROUP plans of one world seed."""
     rng = random.Random(f"{wseed}:world")
     exotic = rng.choice([0.0, 0.0, 0.0, 0.2])
-    ntrees = 1 if rng.random() < 0.75 else 2
+    ntrees = 1 if rng.random() < 0.6 else 2
     trees = {}
     cfgs = {}
     predicted = {}
+    layer_focus = rng.random() < 0.25  # sessions about layer rules over pattern-defined layers
     for t in range(ntrees):
-        tree = W.gen_tree(rng, f"t{t}", exotic)
+        if t == 1 and rng.random() < 0.6:
+            tree = W.variant_tree(rng, trees["t0"], "t1")
+        else:
+            tree = W.gen_tree(rng, f"t{t}", exotic)
         trees[tree.name] = tree
         ncfg = rng.randint(2, 4) if t == 0 else rng.randint(1, 2)
         for j in range(ncfg):
@@ -237,8 +244,10 @@ def gen_world(wseed):
     archs = {}
     for a in range(rng.randint(1, 2)):
         target = W.pick(rng, cfg_ids)
-        arch = W.gen_arch(rng, predicted[target], all_named=rng.random() < 0.7,
-                          universe=trees[cfgs[target]["tree"]].all_modules())
+        arch = W.gen_arch(rng, predicted[target],
+                          all_named=(rng.random() < 0.7 and not layer_focus),
+                          universe=trees[cfgs[target]["tree"]].all_modules(),
+                          p_regex=0.7 if layer_focus else 0.35)
         if len(arch) >= 2:
             archs[f"A{a}"] = {"layers": [[n, [c[0], c[1]]] for n, c in arch], "cfg": target}
     # diagrams
@@ -257,7 +266,7 @@ def gen_world(wseed):
     for s in range(nspecs):
         r = rng.random()
         target = W.pick(rng, cfg_ids)
-        if r < 0.2 and archs:
+        if r < (0.6 if layer_focus else 0.2) and archs:
             aid = W.pick(rng, sorted(archs))
             arch = [(n, tuple(c)) for n, c in archs[aid]["layers"]]
             spec = gen_layer_spec(rng, aid, arch)
@@ -403,7 +412,7 @@ def generate(seed, index):
                     oid = new_rule_obj(W.pick(rng, spec_ids), c)
                     own.append(oid)
                 target = specs[robjs[oid]]["target"]
-                same_tree = [k for k in cfg_ids if cfgs[k]["tree"] == cfgs[target]["tree"]]
+                same_tree = [k for k in cfg_ids if cfgs[k]["root"] == cfgs[target]["root"]]
                 others = [k for k in same_tree if k != target]
                 second = W.pick(rng, others) if others and rng.random() < 0.8 else target
                 for cid in (target, second):
@@ -467,7 +476,8 @@ def generate(seed, index):
                 own.append(oid)
             spec = specs[robjs[oid]]
             target = spec["target"]
-            same_tree = [k for k in cfg_ids if cfgs[k]["tree"] == cfgs[target]["tree"]]
+            # other scans of the same project: the same tree, or a sibling checkout of it
+            same_tree = [k for k in cfg_ids if cfgs[k]["root"] == cfgs[target]["root"]]
             seq = [target]
             if swarm["reapply"] and rng.random() < 0.4:
                 n = rng.randint(1, 3)
